@@ -367,6 +367,12 @@ example : StOK exCfg SizeNonneg exSt1 ∧
   exact ⟨place_ok hns (initSt_ok exCfg SizeNonneg 0 10 10 1 false hsz (by norm_num) (by norm_num)) (hl 1), hl 2,
     by decide +kernel⟩
 
+-- siblings_tight in that state is not met through its escape disjunct (`sideRootPos = dblMax`): the placed subtree's rank
+-- bound [−20, −10] is pushed against the bound [0, 20] of what is there, gap exactly 2·nodeSep = 10
+example : exSt1.positiveNext = false ∧ sideRootPos exCfg exSt1 (exLeaf 2) ≠ dblMax ∧
+    exSt1.rest.map (fun l => (l.lo, l.hi)) = [(0, 20)] ∧
+    (sideMoved exCfg exSt1 (exLeaf 2)).levels.map (fun l => (l.lo, l.hi)) = [(-20, -10)] := by decide +kernel
+
 -- non-vacuity of tuple_sort_is_determined: a two-element sorted permutation
 example : ["a", "b"].Perm ["b", "a"] ∧ ["a", "b"].Pairwise (fun a b => ¬ b < a) :=
   ⟨List.Perm.swap _ _ _, by decide⟩
